@@ -523,8 +523,9 @@ def patMatch (allowed actual : Bytes) : Bool :=
   else allowed = actual
 
 /-- `caddyhttp.StatusCodeMatches` -/
-def statusCodeMatches (actual configured : Nat) : Bool :=
-  actual = configured || (configured < 100 && actual ≥ configured * 100 && actual < (configured + 1) * 100)
+def statusCodeMatches (actual : Nat) (configured : Int) : Bool :=
+  Int.ofNat actual = configured ||
+    (configured < 100 && Int.ofNat actual ≥ configured * 100 && Int.ofNat actual < (configured + 1) * 100)
 
 /-- `textproto.CanonicalMIMEHeaderKey` on a field name made of letters, digits and `-` -/
 def canonKeyAux : Bytes → Bool → Bytes
@@ -532,10 +533,17 @@ def canonKeyAux : Bytes → Bool → Bytes
   | c :: cs, upper =>
     (if upper then (if 97 ≤ c && c ≤ 122 then c - 32 else c) else lowerByte c) :: canonKeyAux cs (c == 45)
 
-def canonKey (k : Bytes) : Bytes := canonKeyAux k true
+/-- `validHeaderFieldByte` (net/textproto): the token characters -/
+def headerFieldByte (b : UInt8) : Bool :=
+  (48 ≤ b && b ≤ 57) || (65 ≤ b && b ≤ 90) || (97 ≤ b && b ≤ 122) ||
+  b == 33 || b == 35 || b == 36 || b == 37 || b == 38 || b == 39 || b == 42 || b == 43 || b == 45 || b == 46 ||
+  b == 94 || b == 95 || b == 96 || b == 124 || b == 126
+
+/-- a name with a byte outside the token characters is returned unchanged -/
+def canonKey (k : Bytes) : Bytes := if k.all headerFieldByte then canonKeyAux k true else k
 
 structure Matcher where
-  codes : Option (List Nat)                      -- `StatusCode` (`none` = nil: any status)
+  codes : Option (List Int)                      -- `StatusCode` (`none` = nil: any status)
   headers : List (Bytes × Option (List Bytes))   -- `Headers`: raw map key ↦ allowed values (`none` = nil: must be absent)
 
 /-- one entry of `matchHeaders` (matchers.go:1024-1065): nil = the field must be absent, an empty non-nil
